@@ -6,7 +6,7 @@ Correspondence: aldy.genotype.genotype() on simulated alignment files (outcome c
 Predicate     : Guards.holds_no_call (error, no call in any output, empty result line in simple output) on the
                 implementation's behaviour for the clauses no-reads / low-depth / empty-neutral; for pseudogene-only
                 reads: every reported solution is the whole-gene deletion on both haplotypes."""
-import io, json, os, re, sys, tempfile, contextlib, traceback
+import io, json, os, re, shutil, sys, tempfile, contextlib, traceback
 from fractions import Fraction
 import common
 from common import cz, cq, cbool, clist
@@ -451,7 +451,11 @@ def evaluate(chk, cases, world, variant=None):
     results = []
     with tempfile.TemporaryDirectory(dir=common.SCRATCH) as d:
         for k, case in enumerate(cases):
-            bam = os.path.join(d, f"s{k}.bam")
+            # every other sample is called "sample.bam" (in a directory of its own): different files with ONE base name loaded in
+            # one process - whatever is remembered per sample name instead of per file shows as a call on an empty locus / region
+            sub = os.path.join(d, f"dir{k}")
+            os.makedirs(sub, exist_ok=True)
+            bam = os.path.join(sub, "sample.bam") if k % 2 else os.path.join(d, f"s{k}.bam")
             write_bam(world, case["db"], case["build"], bam, case["segments"])
             obs = run_impl(case, world, d, bam)
             try:
@@ -460,6 +464,7 @@ def evaluate(chk, cases, world, variant=None):
                 ev = None
                 obs["evidence_crash"] = traceback.format_exc()[-400:]
             results.append((case, obs, ev))
+            shutil.rmtree(sub, ignore_errors=True)
             for f in os.listdir(d):
                 if f.startswith(f"s{k}.") or f.startswith("out"):
                     os.remove(os.path.join(d, f))
